@@ -32,7 +32,8 @@ META = {
                             "and the normal-form encoding of the step == the plain encoding",
             "checksum == DescriptorChecksum": "every text of 0..24 characters over the 95-character charset (each character a symbolic "
                                               "charset position): whole real function in normal form; lengths 0..2 additionally without the "
-                                              "normal form (plain bit-vector encoding, z3 alone); lengths 0..64 compositionally (calc_poly_mod "
+                                              "normal form (plain bit-vector encoding, z3 alone; normal form == plain encoding for lengths "
+                                              "0..1); lengths 0..64 compositionally (calc_poly_mod "
                                               "uninterpreted, symbol string against the closed form, state threading, final xor, extraction)",
             "single-character substitution": "descriptors of 1, 2 and 3 keys (158, 297 and 436 characters; key records of "
                                              "test_descriptor.py): EVERY body position x EVERY replacement character of the 95-character "
@@ -43,7 +44,7 @@ META = {
                                                          "at all non-xpub positions and every 8th xpub position"},
         "thorough": {
             "polymod step": "same",
-            "checksum == DescriptorChecksum": "normal form: lengths 0..64; plain: 0..2; compositional: 0..64",
+            "checksum == DescriptorChecksum": "normal form: lengths 0..64; plain: 0..2 (normal form == plain encoding for 0..2); compositional: 0..64",
             "single-character substitution": "additionally the 1-of-4 descriptor (575 characters) and the mixed SLIP-132 descriptor with "
                                              "a long derivation path (341 characters)",
             "concrete scaffolding (NOT solver-decided)": "same wallets; native sweep of every position of the 1-of-1 and 1-of-2 records"}},
@@ -561,7 +562,7 @@ def _run_ccc(d, text, wit):
         return None
 
 
-def _o1_plain_path(n):
+def _o1_plain_path(n, cross=True):
     """no normal form: z3 alone (feasible for n <= 2); and the normal-form encoding against the plain one"""
     poss, text, wit = _sym_text(n)
     d = use_polymod("plain")
@@ -570,9 +571,10 @@ def _o1_plain_path(n):
         return "raised"
     e = spec_chars(spec_checksum(poss))
     check((len(r) == 8) and (r == e), "calc_core_checksum differs from Bitcoin Core's DescriptorChecksum", witness=wit)
-    d = use_polymod("anf")
-    ra = _run_ccc(d, text, wit)
-    check(ra is not None and (ra == r), "normal-form encoding of calc_core_checksum differs from the plain encoding", witness=wit)
+    if cross:
+        d = use_polymod("anf")
+        ra = _run_ccc(d, text, wit)
+        check(ra is not None and (ra == r), "normal-form encoding of calc_core_checksum differs from the plain encoding", witness=wit)
     return Out("ok", _positions_of(r))
 
 
@@ -624,11 +626,12 @@ def _o1_uf_path(n):
 _O1 = {"plain": _o1_plain_path, "anf": _o1_anf_path, "uf": _o1_uf_path}
 
 
-def ob_checksum(kind, lengths):
+def ob_checksum(kind, lengths, cross=True):
     nat = loader.native("descriptor")
     runs = []
     for n in lengths:
-        runs.append(sym_run(lambda: _O1[kind](n), timeout_ms=150000, expect_classes=["ok"],
+        fn = (lambda: _o1_plain_path(n, cross)) if kind == "plain" else (lambda: _O1[kind](n))
+        runs.append(sym_run(fn, timeout_ms=150000, expect_classes=["ok"],
                             gen_env=lambda rng, n=n: {f"p[{i}]": rng.randrange(95) for i in range(n)},
                             native=lambda env, n=n: [CORE_IN.find(ch) for ch in nat.calc_core_checksum(_text([env[f"p[{i}]"] for i in range(n)]))],
                             n_val=6))
@@ -950,9 +953,11 @@ def obligations(tier):
     obs = [Ob("O0-tables", ob_tables)]
     obs.append(Ob("O1-step", ob_step, replay="step"))
     for n in (0, 1, 2):
-        obs.append(Ob("O1-checksum-plain", ob_checksum, {"kind": "plain", "lengths": (n,)}, replay="checksum", budget_s=900))
+        # the parity query normal form == plain costs as much as the main one at n = 2: thorough only (quick: n <= 1 and O1-step)
+        obs.append(Ob("O1-checksum-plain", ob_checksum, {"kind": "plain", "lengths": (n,), "cross": (n < 2 or not q)}, replay="checksum",
+                      budget_s=900))
     top = 24 if q else 64
-    for g in _chunks(range(0, top + 1), 5):
+    for g in _chunks(range(0, top + 1), 3 if q else 5):
         obs.append(Ob("O1-checksum-normalform", ob_checksum, {"kind": "anf", "lengths": g}, replay="checksum", budget_s=1500))
     for g in _chunks(range(0, 64 + 1), 13):
         obs.append(Ob("O1-checksum-composed", ob_checksum, {"kind": "uf", "lengths": g}, replay="checksum", budget_s=1500))
